@@ -146,6 +146,19 @@ pub fn gen(rng: &mut Rng, size: usize) -> Value {
             }
         }
     }
+    // a LONG junk line whose terminator sits next to a multiple of 8192 (the size of the buffer the library reads through):
+    // the '\r' of a "\r\n" as the last byte of a full read, the '\n' as the first byte of the next one
+    let mut long_header = false;
+    if rng.chance(1, 25) {
+        bytes.clear();
+        header_ok = true;
+        long_header = true;
+        let k = 1 + rng.below(2) as usize;
+        let end = 8192 * k - 2 + rng.below(4) as usize;          // offset of the first terminator byte: 8190 .. 8193 (mod 8192)
+        bytes.extend(b")]}'");
+        while bytes.len() < end { bytes.push(*rng.pick(&[b'g', b' ', b'}', b'x'])); }
+        match rng.below(3) { 0 => bytes.push(b'\n'), _ => bytes.extend(b"\r\n") }
+    }
     // bytes that are special to SOME readers but not to this one: a byte order mark, blanks
     if bytes.is_empty() && rng.chance(1, 5) {
         bytes.extend(*rng.pick(&[&[0xEFu8, 0xBB, 0xBF][..], &b" "[..], &b"\n\n"[..], &[0xFEu8, 0xFF][..], &b"\t"[..]]));
@@ -199,6 +212,10 @@ pub fn gen(rng: &mut Rng, size: usize) -> Value {
         _ => {}
     }
     for _ in 0..rng.below(12) { sizes.push(1 + rng.below(30) as usize); }
+    if long_header {
+        // full reads, or a short first read and then full ones, or a read that ends exactly at / before / after the '\r'
+        sizes = match rng.below(4) { 0 => vec![], 1 => vec![100], 2 => vec![hdr_len - 2], _ => vec![hdr_len - 1] };
+    }
     // a corrupted document may or may not still be valid: let the judge only use `valid` as a sufficient condition
     let certainly_valid = valid && doc_is_untouched(&bytes[hdr_len..], &d);
     json!({"op": "doc", "bytes": bytes, "sizes": sizes, "valid": certainly_valid})
